@@ -603,13 +603,13 @@ func (fc *funcContext) translateExpr(expr ast.Expr) *expression {
 			}
 			return fc.formatExpr("%e.%s", e.X, strings.Join(fields, "."))
 		case types.MethodVal:
-			return fc.formatExpr(`$methodVal(%s, "%s")`, fc.makeReceiver(e), sel.Obj().(*types.Func).Name())
+			return fc.formatExpr(`$methodVal(%s, "%s")`, fc.makeReceiver(e), fc.methodName(sel.Obj().(*types.Func)))
 		case types.MethodExpr:
 			fc.pkgCtx.DeclareDCEDep(sel.Obj(), inst.TNest, inst.TArgs)
 			if _, ok := sel.Recv().Underlying().(*types.Interface); ok {
-				return fc.formatExpr(`$ifaceMethodExpr("%s")`, sel.Obj().(*types.Func).Name())
+				return fc.formatExpr(`$ifaceMethodExpr("%s")`, fc.methodName(sel.Obj().(*types.Func)))
 			}
-			return fc.formatExpr(`$methodExpr(%s, "%s")`, fc.typeName(sel.Recv()), sel.Obj().(*types.Func).Name())
+			return fc.formatExpr(`$methodExpr(%s, "%s")`, fc.typeName(sel.Recv()), fc.methodName(sel.Obj().(*types.Func)))
 		default:
 			panic(fmt.Sprintf("unexpected sel.Kind(): %T", sel.Kind()))
 		}
